@@ -467,9 +467,11 @@ class Average(Numeric):
       self,
       decision_point: pg.geno.DecisionPoint,
       parent_decisions: List[Optional[float]]) -> float:
-    del decision_point
     parent_decisions = [d for d in parent_decisions if d is not None]
-    return sum(parent_decisions) / len(parent_decisions)
+    decision = sum(parent_decisions) / len(parent_decisions)
+    # NOTE: the mean of in-range values could leave the range by rounding.
+    return min(max(decision, decision_point.min_value),
+               decision_point.max_value)
 
 
 @pg.members([
@@ -508,14 +510,16 @@ class WeightedAverage(Numeric):
       self,
       decision_point: pg.geno.Float,
       parent_decisions: List[Optional[float]]) -> float:
-    del decision_point
     decision = 0.0
     denominator = 0.0
     for d, w in zip(parent_decisions, self._parent_weights):
       if d is not None:
         decision += w * d
         denominator += w
-    return decision / denominator
+    decision /= denominator
+    # NOTE: the mean of in-range values could leave the range by rounding.
+    return min(max(decision, decision_point.min_value),
+               decision_point.max_value)
 
 
 #
